@@ -1,6 +1,81 @@
-"""Facts regenerated from /repo's source on every run (go/ast extractor -> lean/RedisGoModel/Generated/*.lean)."""
+"""Facts regenerated from /repo's SOURCE on every run (harness `facts` engine: go/parser + go/ast) and checked against the model:
+F1 (registered commands) is written to lean/RedisGoModel/Generated/Commands.lean and a `decide`d Lean theorem (Props/C04.lean) requires
+every registered command to be one the model knows; F2 (CheckTTL/lock skeleton per executor), F4 (order of the Ready arm) and F5 (raft
+Config literals) are compared with the committed expectations in /verif/expectations/facts.json."""
+import json
+import os
+
+from . import core
+
+GEN = os.path.join(core.LEAN, "RedisGoModel", "Generated", "Commands.lean")
+EXPECT = os.path.join(core.VERIF, "expectations", "facts.json")
+# which properties lean on which fact
+USERS = {"F1": ["C04"], "F2": ["C05", "C06", "C13"], "F4": ["C08"], "F5": ["C15"]}
+_cache = {}
+
+
+def extract():
+    if "facts" in _cache:
+        return _cache["facts"]
+    binary, err = core.build_harness()
+    if binary is None:
+        return None
+    rc, so, se, dt = core.run([binary, "facts", core.REPO], env=core.goenv(), timeout=120)
+    try:
+        facts = json.loads(so)
+    except Exception:
+        facts = None
+    _cache["facts"] = facts
+    return facts
+
+
+def write_generated(facts):
+    names = sorted(facts["commands"])
+    src = ("/-! GENERATED on every check run from /repo/memdb/*.go (RegisterCommand calls) — do not edit. -/\n"
+           "namespace Generated\n\n/-- fact F1: the command names the server registers -/\n"
+           "def commands : List String := [" + ", ".join('"%s"' % n for n in names) + "]\n\nend Generated\n")
+    old = open(GEN).read() if os.path.exists(GEN) else None
+    if old != src:
+        os.makedirs(os.path.dirname(GEN), exist_ok=True)
+        open(GEN, "w").write(src)
 
 
 def regenerate(R):
-    # filled in when the extractor lands; a no-op keeps the pipeline shape
-    return True, "extractor not yet wired"
+    """returns (ok, detail); registers one obligation per fact this property uses"""
+    facts = extract()
+    if facts is None:
+        R.oblige("facts extracted from the source (go/ast)", "facts", False, "extractor failed")
+        return False, "extractor failed"
+    write_generated(facts)
+    exp = json.load(open(EXPECT)) if os.path.exists(EXPECT) else {}
+    diffs = {}
+    sk, esk = facts.get("skeletons", {}), exp.get("skeletons", {})
+    d2 = ["%s: expected %s, source has %s" % (k, esk.get(k), sk.get(k)) for k in sorted(set(sk) | set(esk)) if sk.get(k) != esk.get(k)]
+    if d2:
+        diffs["F2"] = d2
+    if facts.get("ready_arm") != exp.get("ready_arm"):
+        diffs["F4"] = ["Ready arm order: expected %s, source has %s" % (exp.get("ready_arm"), facts.get("ready_arm"))]
+    bad5 = ["%s: expected %s, source has %s" % (k, exp.get("consts", {}).get(k), facts.get("consts", {}).get(k))
+            for k in sorted(set(facts.get("consts", {})) | set(exp.get("consts", {}))) if facts.get("consts", {}).get(k) != exp.get("consts", {}).get(k)]
+    if bad5:
+        diffs["F5"] = bad5
+    ok = True
+    R.facts_broken = []
+    for fid, props in USERS.items():
+        if R.prop not in props or fid == "F1":
+            continue
+        good = fid not in diffs
+        what = {"F2": "CheckTTL / lock-call skeleton of every registered executor equals the recorded one (%d executors)" % len(sk),
+                "F4": "order of the calls in serveChannels' Ready arm equals the recorded one (persist before send/publish)",
+                "F5": "raft.Config literal of startRaft equals the recorded one (no PreVote/CheckQuorum)"}[fid]
+        R.oblige("fact %s: %s" % (fid, what), "facts", good, "; ".join(diffs.get(fid, []))[:600])
+        if not good:
+            ok = False
+            R.facts_broken.append((fid, diffs[fid]))
+    R.extra["facts"] = dict(commands=len(facts["commands"]), executors_with_skeleton=len(sk), ready_arm=facts.get("ready_arm"))
+    return ok, "; ".join("%s: %s" % (k, v[0]) for k, v in diffs.items())
+
+
+def record_expectations():
+    facts = extract()
+    json.dump(dict(skeletons=facts["skeletons"], ready_arm=facts["ready_arm"], consts=facts["consts"]), open(EXPECT, "w"), indent=1, sort_keys=True)
